@@ -250,14 +250,8 @@ def r3_exactly_one_feedback(ctx, sym):
                       "the constructed feedback is not stored on the sandbox and on the exception",
                       "sandbox.feedback is None after a failure")
     # location provenance: traceback.line_number is the raising line of the last traceback entry
-    from .c17 import line_number_provenance
-    ux = ctx.repo.module('pedal.utilities.exceptions')
-    init = ux.func('ExpandedTraceback.__init__')
-    ctx.analysed_function(ux, init)
-    ln = [n for n in body_walk(init) if isinstance(n, ast.Assign) and any(is_self_attr(t, 'line_number')
-                                                                         for t in n.targets)]
-    ctx.require(len(ln) == 1, "ExpandedTraceback.__init__ no longer assigns line_number once")
-    line_number_provenance(ctx, ux, init, ln, 'R3')
+    from .c17 import traceback_line_rule
+    traceback_line_rule(ctx, sym, 'R3')
     # no other Feedback constructed in the call closure
     seen = set()
     work = [Callee(mod, fn, sym.find_class(SANDBOX, 'Sandbox'), 'method')]
